@@ -275,7 +275,7 @@ bool Directory::exists(const String& dir)
 bool Directory::create(const String& dir)
 {
   String parent = File::getDirectoryName(dir);
-  if(parent != "." && !Directory::exists(parent))
+  if(!parent.isEmpty() && parent != "." && !Directory::exists(parent)) // (an empty parent: dir is the root or directly below it)
   {
     if(!Directory::create(parent))
       return false;
